@@ -8552,10 +8552,9 @@ class TreeSequence:
             )
             # the shapes of out and denominator should be the same except that
             # out may have an extra dimension if indexes is not None
-            if indexes is not None and not isinstance(denominator, float):
-                oshape = list(out.shape)
-                oshape[-1] = 1
-                denominator = denominator.reshape(oshape)
+            if np.ndim(out) > np.ndim(denominator):
+                # one statistic per index tuple in the last dimension of ``out``
+                denominator = np.expand_dims(denominator, -1)
             with np.errstate(divide="ignore", invalid="ignore"):
                 out /= denominator
 
